@@ -166,6 +166,9 @@ def norm_result(r):
 
 def do_probe_paths(world, rep, op):
     g, m = rep.g, rep.m
+    if world.poke:
+        from . import oracles as _o
+        _o.poke_observers(rep.g, *_o.window(rep.m))
     require_source_ok(world, rep)
     if not m.removal:
         return {'out': 'skipped', 'fault': False, 'cls': 'skip', 'keys': []}
@@ -242,6 +245,9 @@ def do_probe_paths(world, rep, op):
 def do_probe_all_paths(world, rep, op):
     """all_time_respecting_paths == per-source aggregation of time_respecting_paths(v=None)"""
     g, m = rep.g, rep.m
+    if world.poke:
+        from . import oracles as _o
+        _o.poke_observers(rep.g, *_o.window(rep.m))
     require_source_ok(world, rep)
     if not m.removal or not m.instants():
         return {'out': 'skipped', 'fault': False, 'cls': 'skip', 'keys': []}
@@ -297,6 +303,9 @@ def parse_occ(name, kind):
 
 def do_probe_dag(world, rep, op):
     g, m = rep.g, rep.m
+    if world.poke:
+        from . import oracles as _o
+        _o.poke_observers(rep.g, *_o.window(rep.m))
     require_source_ok(world, rep)
     if not m.removal:
         return {'out': 'skipped', 'fault': False, 'cls': 'skip', 'keys': []}
